@@ -92,7 +92,8 @@ def check_decoder_side(ctx, rep, R3="I3", R4="I4"):
             if isinstance(callee, tuple) and callee[0] == "ext" and callee[1] == "builtins.next" and len(args) in (1, 2):
                 k = sum(1 for t in st.tags if t[0] in ("sym", "end"))
                 s2 = _tag(st, ("sym", k))
-                out = [(s2, Tup([Unk(("pos", k)), Unk(("symbol", k))]))]
+                # an exhausted iterator stays exhausted
+                out = [(s2, Tup([Unk(("pos", k)), Unk(("symbol", k))]))] if not any(t[0] == "end" for t in st.tags) else []
                 if len(args) == 1:
                     eng._raise(fr, node, "StopIteration", _tag(st, ("end", k)))
                 else:
@@ -131,8 +132,11 @@ def check_decoder_side(ctx, rep, R3="I3", R4="I4"):
             present = [t for t in st.tags if t[0] in ("sym", "end")]
             kinds = [t[0] for t in present]
             probs = []
-            if len(present) != n:
-                probs.append("reader consumes %d symbol slot(s) for an index of %d symbol(s)" % (len(present), n))
+            n_sym = kinds.count("sym")
+            if n_sym > n or (n_sym < n and "end" not in kinds):
+                probs.append("reader consumes %d symbol slot(s) for an index of %d symbol(s)" % (n_sym, n))
+            # slots after the end of the input are missing symbols (however many times the reader probed the iterator)
+            kinds = ["sym"] * min(n_sym, n) + ["end"] * (n - min(n_sym, n))
             want = Lin.const(0)
             for k in range(n):
                 kind = kinds[k] if k < len(kinds) else "end"
